@@ -789,7 +789,11 @@ func (rfEngine) Gen(t *rapid.T, tier string) interface{} {
 	c := &RFCase{Engine: "readerfault"}
 	c.Seed = rapid.Uint64().Draw(t, "seed")
 	var b strings.Builder
-	n := rapid.IntRange(1, 4).Draw(t, "nparts")
+	maxParts := 4
+	if tier == "thorough" {
+		maxParts = 8
+	}
+	n := rapid.IntRange(1, maxParts).Draw(t, "nparts")
 	for i := 0; i < n; i++ {
 		switch rapid.IntRange(0, 3).Draw(t, "part") {
 		case 0:
@@ -807,10 +811,14 @@ func (rfEngine) Gen(t *rapid.T, tier string) interface{} {
 		b.WriteString("\n")
 	}
 	c.Text = b.String()
-	if len(c.Text) > 1500 {
-		c.Text = c.Text[:1500]
+	maxLen := 1500
+	if tier == "thorough" {
+		maxLen = 4000
 	}
-	if len(c.Text) < 1500 && rapid.IntRange(0, 2).Draw(t, "invalid?") == 2 {
+	if len(c.Text) > maxLen {
+		c.Text = c.Text[:maxLen]
+	}
+	if len(c.Text) < maxLen && rapid.IntRange(0, 2).Draw(t, "invalid?") == 2 {
 		// invalid by construction: a forbidden construct after (and possibly before) valid programs
 		c.Invalid = true
 		if rapid.Bool().Draw(t, "suffix") {
